@@ -49,6 +49,18 @@ def _atom(x):
     return type(x).__name__[0] + ":" + repr(x)
 
 
+def _cheap_key(e):
+    if isinstance(e, ATOMIC):
+        return "0" + _atom(e)
+    try:
+        u = e.untyped_representation            # Predicate / GroundedPredicate / PDDLFunction
+        if isinstance(u, str):
+            return "1" + type(e).__name__ + ":" + u
+    except Exception:
+        pass
+    return "2" + type(e).__name__
+
+
 def canon(obj, memo, cut=()):
     """Canonical JSON-able form; shared/cyclic references become ["ref", first-visit index]."""
     if isinstance(obj, ATOMIC):
@@ -68,8 +80,13 @@ def canon(obj, memo, cut=()):
         return [tname, [canon(v, memo, cut) for v in (list.__iter__(obj) if isinstance(obj, list) else obj)]]
     if isinstance(obj, (set, frozenset)):
         elems = list(set.__iter__(obj)) if isinstance(obj, set) else list(obj)
-        keyed = sorted(((json.dumps(canon(e, {}, cut), sort_keys=True), i) for i, e in enumerate(elems)))
-        return [tname, [canon(elems[i], memo, cut) for _, i in keyed]]
+        # canonical order of the members: by a cheap text first (atoms: their value; facts: their untyped text), by the
+        # full canonical form only among members the cheap text does not separate
+        cheap = [_cheap_key(e) for e in elems]
+        dup = {k for k in cheap if cheap.count(k) > 1} if len(set(cheap)) < len(cheap) else ()
+        keyed = sorted(((k, json.dumps(canon(e, {}, cut), sort_keys=True) if k in dup else "", i)
+                        for i, (k, e) in enumerate(zip(cheap, elems))))
+        return [tname, [canon(elems[i], memo, cut) for _, _, i in keyed]]
     d = getattr(obj, "__dict__", None)
     if d is not None:
         items = []
